@@ -49,8 +49,72 @@ def uid_program(draw):
     return {"config": cfg, "steps": steps}
 
 
+@st.composite
+def uid_release_program(draw):
+    """Histories built around one UID that is taken, released (overwrite with another UID or with an object
+    without UID, delete) and taken again by other members, with unrelated writes in between - the sequences in
+    which a stale entry of the server's UID bookkeeping decides the answer."""
+    cfg = {"prefix": draw(st.sampled_from(gen_prog.PREFIXES)), "seed": []}
+    bare = draw(st.integers(0, 2)) == 0
+    if bare:
+        cfg["seed"].append({"slot": "b1", "bare": True, "meta": "config", "kind": "calendar"})
+    coll = "b1" if bare else "c1"
+    names = [draw(gen.member_name(".ics", fancy=False)) for _ in range(5)]
+    names = list(dict.fromkeys(names + ["a1.ics", "b2.ics", "c3.ics", "d4.ics", "e5.ics"]))[:5]
+    a, b, c, d, e = names
+    X, Y, Z = "u1", "u2", "u3"
+    body = lambda u: enc_body(draw(gen.calendar_object(uid=u))["raw"])  # noqa: E731
+    steps = [{"op": "MKCOL", "fe": draw(gen_prog.FE), "coll": "c1", "kind": "mkcalendar"}]
+
+    def put(n, u):
+        steps.append({"op": "PUT", "fe": draw(gen_prog.FE), "coll": coll, "name": n, "ctype": "text/calendar", "body": body(u), "cond": []})
+
+    def delete(n):
+        steps.append({"op": "DELETE", "fe": draw(gen_prog.FE), "coll": coll, "name": n, "cond": []})
+
+    def filler():
+        for _ in range(draw(st.integers(0, 2))):
+            k = draw(st.integers(0, 5))
+            if k <= 2:
+                put(draw(st.sampled_from([d, e])), draw(st.sampled_from([Y, Z, Z])))
+            elif k == 3:
+                delete(draw(st.sampled_from([d, e])))
+            elif k == 4:
+                steps.append({"op": "RESTART"})
+            else:
+                put(draw(st.sampled_from([d, e])), X)  # a real conflict (or not, if X is free right now)
+
+    put(a, X)
+    filler()
+    for _ in range(draw(st.integers(1, 3))):
+        how = draw(st.sampled_from(["uidless", "uidless", "other", "delete", "same"]))
+        if how == "uidless":
+            put(a, "")
+        elif how == "other":
+            put(a, Y)
+        elif how == "delete":
+            delete(a)
+        else:
+            put(a, X)
+        filler()
+        put(b, X)
+        filler()
+        what = draw(st.sampled_from(["delete-a", "delete-a", "put-a", "nothing"]))
+        if what == "delete-a":
+            delete(a)
+        elif what == "put-a":
+            put(a, draw(st.sampled_from([Y, "", X])))
+        filler()
+        put(c, X)
+        filler()
+        delete(draw(st.sampled_from([b, c])))
+        put(draw(st.sampled_from([a, c, b])), X)
+        a, b, c = draw(st.permutations([a, b, c]))
+    return {"config": cfg, "steps": steps}
+
+
 def strategy():
-    return uid_program()
+    return st.one_of(uid_program(), uid_program(), uid_release_program())
 
 
 def nontrivial(program, stt, r):
